@@ -445,6 +445,9 @@ func main() {
 	}
 	cfg := &packages.Config{Mode: packages.NeedName | packages.NeedFiles | packages.NeedCompiledGoFiles | packages.NeedSyntax | packages.NeedTypes | packages.NeedTypesInfo | packages.NeedImports | packages.NeedDeps,
 		Dir: *dir, BuildFlags: []string{"-tags=verif"}, Env: os.Environ()}
+	if mf := os.Getenv("VERIF_MODFILE"); mf != "" {
+		cfg.BuildFlags = append(cfg.BuildFlags, "-modfile="+mf)
+	}
 	if *extra != "" {
 		var ov struct{ Replace map[string]string }
 		b, err := os.ReadFile(*extra)
